@@ -31,6 +31,7 @@ def step (line : String) : String :=
   | "rec" :: rest => Driver.KeepAlive.run rest
   | "rq" :: rest => Driver.ReqClient.run rest
   | "rqstallc" :: rest => Driver.ReqClient.runStallC rest
+  | "rqmany" :: rest => Driver.ReqClient.runMany rest
   | "rqwrap" :: rest => Driver.ReqClient.runWrap rest
   | "rqdead" :: rest => Driver.ReqClient.runDead rest
   | "rqcut" :: rest => Driver.ReqClient.runCut rest
